@@ -1443,7 +1443,7 @@ func TestC17Converge(t *testing.T) {
 		ID: "C17", Name: "converge",
 		Rule: "a real temp directory holds a JSON or YAML config file, direct, in the Kubernetes AtomicWriter layout (visible symlink -> <link>/file, <link> -> ..ts-N, link named ..data or ..dir) " +
 			"or behind a plain symlink (target next to the link or in a subdirectory; retarget = new target file, new symlink renamed over the visible one); " +
-			"a real file.WatchingSource (no poll interval) feeds dials.Config; 1..12 operations {in-place truncate+write, temp+rename-over, ..ts-N/<link> swap with or without removal of the old directory, delete+recreate} " +
+			"a real file.WatchingSource (no poll interval) feeds dials.Config; 1..12 operations {in-place truncate+write, temp+rename-over, ..ts-N/<link> swap or symlink retarget with or without removal of the old directory/target, delete+recreate} " +
 			"each writing new valid content (unique counter), identical bytes, malformed content, the last valid content again (restore) or the valid content before that (revert), with pauses of 0/1/30 ms from the case " +
 			"(a new-content operation may carry a settle flag: wait for the view to show it before going on); final content valid, identical to the previous, restored, reverted or invalid. " +
 			"Oracle by construction: View() must become defaults overlaid with the fields of the final document; when the final content is invalid the harness first waits for the last valid content to be installed " +
@@ -1470,7 +1470,7 @@ func TestC17Converge(t *testing.T) {
 type C17IdentCase struct {
 	C17Setup
 	Prefix []C17Op `json:"prefix"` // 0..3 operations, the last one leaves valid content
-	Repl   []C17Op `json:"repl"`   // 1..3 atomic replacements with identical bytes; the last pause is the gap before the change
+	Repl   []C17Op `json:"repl"`   // 1..3 atomic replacements (rename / swap / retarget) with identical bytes; the last pause is the gap before the change
 	Change C17Op   `json:"change"` // atomic replacement with new valid content
 }
 
@@ -1605,7 +1605,7 @@ func TestC17Identical(t *testing.T) {
 	vrt.Check(t, vrt.Prop[C17IdentCase]{
 		ID: "C17", Name: "identical",
 		Rule: "same world as C17/converge; a prefix of 0..3 arbitrary operations ending in valid content, wait until the view shows it (quiescence: contents carry unique counters, so the watcher has read the final bytes and every later read sees the same bytes), " +
-			"take (cfg, serial) = ViewVersion(); 1..3 atomic replacements (temp+rename-over, or ..ts-N/<link> swap) with identical bytes, pauses 0/1/30 ms, then a gap of 0/30/100 ms; " +
+			"take (cfg, serial) = ViewVersion(); 1..3 atomic replacements (temp+rename-over, ..ts-N/<link> swap, or retarget of a plain symlink) with identical bytes, pauses 0/1/30 ms, then a gap of 0/30/100 ms; " +
 			"oracle 1: just before the next step ViewVersion() must return a serial == the snapshot (sound at any instant); " +
 			"oracle 2: one atomic replacement with new content follows as a barrier (events are handled in order, so when the new content is visible the replacements' events have been handled); the serial number must have advanced by exactly 1 " +
 			"(atomic operations expose no intermediate content, so old bytes -> new bytes is the only possible transition). " +
